@@ -133,11 +133,12 @@ class hand_res(ContractBase):
     def requires(c):
         m = c['msg']
         return {'reply-names-its-job': Not(Opt(ATOM).is_none(MSG.get(m, 'jobid'))), 'reply-carries-timing': Not(Opt(Ref('Timing')).is_none(MSG.get(m, 'timing'))),
-                'log': LE.len(c.old.g('ghost.chronicle')) >= 0,
-                # J2 before the reply: the queue holds no idle entry other than (possibly) the replying job
-                'J2': z3.ForAll([z3.Const('j2_n', NODE.sort())],
-                                Implies(que(c.old)[z3.Const('j2_n', NODE.sort())],
-                                        Or(todo(c.old, z3.Const('j2_n', NODE.sort())) != TGTS.empty(), doing(c.old, z3.Const('j2_n', NODE.sort())) != TGTS.empty())))}
+                'log': LE.len(c.old.g('ghost.chronicle')) >= 0}
+
+    @staticmethod
+    def J2(view):
+        x = z3.Const('j2_n', NODE.sort())
+        return z3.ForAll([x], Implies(que(view)[x], Or(todo(view, x) != TGTS.empty(), doing(view, x) != TGTS.empty())))
 
     def ensures(c):
         m = c['msg']
@@ -165,7 +166,8 @@ class hand_res(ContractBase):
                 'failure.no-dependent-is-triggered': Implies(Not(success), Implies(todo(c.cur, n)[t], todo(c.old, n)[t])),
                 'failure.other-targets-untouched': Implies(And(Not(success), t != inc, inc != ALL),
                                                            And(todo(c.cur, n)[t] == todo(c.old, n)[t], doing(c.cur, n)[t] == doing(c.old, n)[t])),
-                'idle-means-idle': Implies(And(queued, que(c.cur)[n]), Or(todo(c.cur, n) != TGTS.empty(), doing(c.cur, n) != TGTS.empty()))}
+                # J2 (no idle queue entry) is preserved by a reply
+                'idle-means-idle': Implies(And(hand_res.J2(c.old), queued, que(c.cur)[n]), Or(todo(c.cur, n) != TGTS.empty(), doing(c.cur, n) != TGTS.empty()))}
 
     def _inv_busy(c):
         u = c.sk('u', ATOM)
